@@ -5,6 +5,12 @@ import json, os, subprocess
 VERIF = os.path.dirname(os.path.dirname(os.path.abspath(__file__)))
 
 CLAIMED = {
+    "C02": dict(
+        category="proof",
+        text="PARTIAL. Proved (coq/Properties_C02.v, closed under the global context): on the executable models every UTF transcoding and every MsgPack read/skip terminates within a fuel linear in the input, never leaves its input buffer and ends in an ordinary outcome, for every byte string. Observed on every run (not proved): the real C++ under ASan+UBSan with watchdog and allocation cap, fed structure-aware mutations / all truncations / arbitrary bytes / boundary families through LoadObject<MsgPack|CSV|JSON|XML> (memory and stream, 10 target shapes, 4 policy settings) and Convert::To (20 target kinds); the property itself is the oracle (anything but OK or an exception derived from std::exception is a violation). Three genuine defect classes of the unchanged tree are KNOWN FINDINGS (F17 terminate, F19 stack overflow by nesting, F20 allocation from declared count); eight others found on the way were repaired by fix: commits.",
+        design_ref="DESIGN.md 4 (C02)",
+        note="C++ lifetime/memory safety, stack depth and allocation are runtime behaviour outside any Gallina model; known-finding classes are decidable predicates on (archive, input, outcome) stated in props/C02.py; any abnormal outcome outside them is reported.",
+        technique="Coq proof of termination/in-bounds on the models + sanitizer-built robustness exploration of the implementation"),
     "C05": dict(
         category="proof",
         text="Coq theorems T_C05_* (coq/Properties_C05.v): for every byte string, whenever the MsgPack reader skips a value (mismatched kind under the Skip policy, nil, or an integer out of the target's range) it consumes exactly the bytes the reference decoder (MpSpec.v, written from the MessagePack spec) assigns to that one value, whatever its kind, format width and nesting depth; SkipValue never runs out of fuel. Tied to /repo by correspondence of the extracted model with both reader classes (string and stream) on all first bytes x tails and random nested documents from an independent encoder followed by further data.",
